@@ -19,7 +19,7 @@ import (
 
 var substructuralMutations = []string{"binder-to-scope", "case-payload-to-scope", "binder-to-alias", "alias-to-live", "cut-reuse-self-as-name",
 	"binder-to-alias", "alias-to-live", "binder-to-alias", "alias-to-live", "binder-to-alias", "case-payload-to-scope", "binder-to-scope", "drop-statement", "dup-statement", "rename-binder",
-	"rename-use", "wait-to-drop", "insert-drop", "insert-split", "extra-provider", "swap-statements", "arity-minus", "drop-branch", "merge-binders", "merge-binders", "drop-statement", "drop-statement", "drop-statement", "extra-provider", "extra-provider"}
+	"rename-use", "wait-to-drop", "insert-drop", "insert-split", "extra-provider", "swap-statements", "arity-minus", "drop-branch", "merge-binders", "merge-binders", "drop-statement", "drop-statement", "drop-statement", "extra-provider", "extra-provider", "shadow-and-forget", "shadow-and-forget", "shadow-and-forget"}
 
 var modeMutations = []string{"param-mode", "ret-mode", "ann-mode", "prc-mode", "shift-words", "ann-mode", "ret-mode", "param-mode"}
 
